@@ -845,7 +845,7 @@ fn all_snapshot_scenarios() -> Vec<String> {
         let mut p = 0; loop { if p == len { break; } idx[p] += 1; if idx[p] < ops.len() { break; } idx[p] = 0; p += 1; }
         if p == len { break; }
     }
-    for h in ["sa0.S.sa2.S.L.ra.S.L.sa3.R.L", "sa5.sb4.S.ra.S.sa0.S.L.ia.R.L.rb.S.L", "sa3.ia.ia.S.L.ia.S.L", "sa0.S.ra.R.sa1.S.L", "sa0.sb0.R.ra.S.sb2.S.L.R.L",
+    for h in ["sa0.S.sb0.S.ra.S.L.sb2.S.L", "sa0.S.sb0.S.ra.S.L.rb.S.L", "sa0.S.sb5.S.ra.S.L.ib.S.L", "sb0.S.sa0.S.rb.S.L.sa2.S.L.R.L", "sa0.S.sa2.S.L.ra.S.L.sa3.R.L", "sa5.sb4.S.ra.S.sa0.S.L.ia.R.L.rb.S.L", "sa3.ia.ia.S.L.ia.S.L", "sa0.S.ra.R.sa1.S.L", "sa0.sb0.R.ra.S.sb2.S.L.R.L",
               "sa0.ra.S.L", "sa0.S.ra.sa1.S.L", "sa1.S.L.sa1.S.L", "sa0.S.L.ra.S.L.L"] { out.push(h.to_string()); }
     out.sort(); out.dedup();
     out
@@ -865,14 +865,34 @@ fn scenario_election(sc: &str) -> Result<Violations, String> {
     dbs.node_state.swap(role0 as usize, std::sync::atomic::Ordering::Relaxed);
     dbs.add_cluster_member(ClusterMember { name: "me:1".into(), role: role0, sender: None });
     if p[1] == "2" { dbs.add_cluster_member(ClusterMember { name: "other:1".into(), role: ClusterRole::Secoundary, sender: None }); }
-    let members = if p[1] == "2" { 2 } else { 1 };
+    let members = if p[1] == "1" { 1 } else { 2 };
+    if p[1] == "2r" {
+        // a helper plays the replication thread: it registers the candidacy as pending towards the (dead) peer and never acknowledges it
+        dbs.add_cluster_member(ClusterMember { name: "other:1".into(), role: ClusterRole::Secoundary, sender: None });
+    }
     let mut v: Violations = vec![];
     let forced = p[3] == "new";
     let cand: u128 = if forced { 0 } else { p[3].parse().map_err(|_| "bad candidate")? };
     let d2 = dbs.clone();
-    let ok = catch_unwind(AssertUnwindSafe(|| { if forced { start_new_election(&d2); } else { election_eval(&d2, cand, &"other:1".to_string()); } })).is_ok();
+    let mut rep_seen: Vec<String> = vec![];
+    let ok = if p[1] == "2r" {
+        let d3 = dbs.clone();
+        let h = std::thread::spawn(move || catch_unwind(AssertUnwindSafe(|| { if forced { start_new_election(&d3); } else { election_eval(&d3, cand, &"other:1".to_string()); } })).is_ok());
+        for _ in 0..400 {
+            std::thread::sleep(std::time::Duration::from_millis(1));
+            for m in drain(&mut rep) {
+                let parts: Vec<&str> = m.splitn(3, ' ').collect();
+                if parts.len() == 3 && parts[0] == "rp" { if let Ok(id) = parts[1].parse::<u64>() { d2.register_pending_opp(id, parts[2].to_string(), &"other:1".to_string()); } }
+                rep_seen.push(m);
+            }
+            if h.is_finished() { break; }
+        }
+        h.join().unwrap_or(false)
+    } else {
+        catch_unwind(AssertUnwindSafe(|| { if forced { start_new_election(&d2); } else { election_eval(&d2, cand, &"other:1".to_string()); } })).is_ok()
+    };
     if !ok { v.push("C10.safety".into()); return Ok(v); }
-    let sup_msgs = drain(&mut sup); let rep_msgs = drain(&mut rep);
+    let sup_msgs = drain(&mut sup); let mut rep_msgs = rep_seen; rep_msgs.extend(drain(&mut rep));
     let role = dbs.get_role();
     let candidacies = rep_msgs.iter().filter(|m| m.contains("election candidate")).count();
     let alive = rep_msgs.iter().filter(|m| m.contains("election alive")).count();
@@ -891,7 +911,7 @@ fn scenario_election(sc: &str) -> Result<Violations, String> {
 }
 fn all_election_scenarios() -> Vec<String> {
     let mut out = vec![];
-    for r in ["s", "p", "c"] { for m in ["1", "2"] { for own in ["5", "1000", "340282366920938463463374607431768211455"] {
+    for r in ["s", "p", "c"] { for m in ["1", "2", "2r"] { for own in ["5", "1000", "340282366920938463463374607431768211455"] {
         for c in ["4", "5", "6", "0", "999", "1000", "1001", "340282366920938463463374607431768211454", "340282366920938463463374607431768211455", "new"] {
             out.push(format!("{}.{}.{}.{}", r, m, own, c)); } } } }
     out
